@@ -283,6 +283,8 @@ func runC16(c *Ctx, r *Report) {
 	r.Doc("R-C16.10", "the state a bounded merge starts from and is observed in is sound: a refused operation leaves no trace in the predecessor index (adopted from C02), and every read of the log's index happens under its lock (adopted from C13: a reader that traverses outside the lock sees neither the log before the cut nor the log after it)")
 	importRules(c, r, "C02", []string{"R-C02.7"}, "R-C16.10")
 	importRules(c, r, "C13", []string{"R-C13.1"}, "R-C16.10")
+	r.Doc("R-C16.12", "a log rebuilt from stored blocks keeps the ordering it was configured with (adopted from C09: the bounded merge truncates the linearisation of the log's own comparator)")
+	importRules(c, r, "C09", []string{"R-C09.6"}, "R-C16.12")
 	r.Doc("R-C16.11", "nothing is allocated for the size bound itself: every sized allocation is bounded by a collection that exists (adopted from C15: a bound far larger than the merged size must behave like the unbounded merge, not run out of memory)")
 	importRules(c, r, "C15", []string{"R-C15.15"}, "R-C16.11")
 	r.Doc("R-C16.5", "the bounded merge computes its candidates, validates, applies and truncates in one critical section of the destination")
